@@ -510,4 +510,29 @@ p("c16-p-union-locals", "C16", FSTF,
   "        self._copy_into(union_fst, state_renaming, 0)\n        # pylint: disable=protected-access\n        other_fst._copy_into(union_fst, state_renaming, 1)",
   "        for idx, operand in enumerate((self, other_fst)):\n            operand._copy_into(union_fst, state_renaming, idx)")
 
+# ----------------------------------------------------------------------------- C17
+IGF = "pyformlang/indexed_grammar/indexed_grammar.py"
+RLF = "pyformlang/indexed_grammar/rules.py"
+ROFI = "pyformlang/indexed_grammar/rule_ordering.py"
+b("c17-optim-dropped", "C17", IGF,
+  "        rules = Rules(l_rules, self.rules.optim)\n        return IndexedGrammar(rules)", "        rules = Rules(l_rules)\n        return IndexedGrammar(rules)",
+  "optim-forwarded")
+b("c17-optim-8-missing", "C17", RLF,
+  "        elif optim == 8:\n            self._rules = rule_ordering.order_random()\n", "", "optim-1..8-handled")
+b("c17-order-drops-rules", "C17", ROFI,
+  "        new_order = sorted(self.rules, key=lambda x:\n                           self._get_len_out(di_graph, x))",
+  "        new_order = [x for x in self.rules if self._get_len_out(di_graph, x)]", "returns-permutation")
+b("c17-loop-ignores-production-changes", "C17", IGF,
+  "                    if prod_res[1]:\n                        return False\n                    was_modified |= prod_res[0]",
+  "                    if prod_res[1]:\n                        return False", "continues-while-either-changed")
+b("c17-loop-skips-duplication", "C17", IGF,
+  "                if rule.is_duplication():\n                    dup_res = self._duplication_processing(rule)\n                    was_modified |= dup_res[0]\n                    if dup_res[1]:\n                        return False\n                elif rule.is_production():",
+  "                if rule.is_production():", "dispatch-on-both-rule-kinds")
+b("c17-intersection-ignores-self", "C17", IGF,
+  "            fst = other.to_fst()\n            return fst.intersection(self)", "            fst = other.to_fst()\n            return fst.intersection(IndexedGrammar(self.rules))",
+  "grammar-x-transducer-of-automaton")
+p("c17-p-order-reverse-builtin", "C17", ROFI,
+  "        if reverse:\n            new_order.reverse()\n        return new_order\n\n    def order_random",
+  "        if reverse:\n            new_order = new_order[::-1]\n        return new_order\n\n    def order_random")
+
 VARIANTS = V
